@@ -1319,6 +1319,13 @@ func variants(root *refwire.Item) (res []*refwire.Item, labels []string) {
 			x.Kids = append(x.Kids, cloneItem(x.Kids[len(x.Kids)-1]))
 			res, labels = append(res, c), append(labels, fmt.Sprintf("duplicate-last-in:%s", ttlv.TagString(n.Tag)))
 		}
+		if len(n.Kids) >= 1 {
+			// the structure without any member (an empty vendor extension, an empty template ...)
+			c := cloneItem(root)
+			x := at(c, p)
+			x.Kids = nil
+			res, labels = append(res, c), append(labels, fmt.Sprintf("emptied:%s", ttlv.TagString(n.Tag)))
+		}
 		// members in another order than the library writes them (every adjacent pair exchanged): accepted or not, what is accepted
 		// must come back in a form that is accepted again
 		for i := 0; i+1 < len(n.Kids); i++ {
@@ -1330,6 +1337,11 @@ func variants(root *refwire.Item) (res []*refwire.Item, labels []string) {
 	}
 	res, labels = append(res, cloneItem(root)), append(labels, "as-written")
 	return
+}
+
+// fpExt: the message extension the items of the typed fixed point carry (the variants empty it, reorder it, add to it)
+func fpExt() *kmip.MessageExtension {
+	return &kmip.MessageExtension{VendorIdentification: "vendor", VendorExtension: ttlv.Struct{{Tag: 0x540002, Value: "x"}}}
 }
 
 func TestTypedFixedPoint(t *testing.T) {
@@ -1365,9 +1377,9 @@ func TestTypedFixedPoint(t *testing.T) {
 			var msg any
 			newPtr := func() any { return new(kmip.RequestMessage) }
 			if dir == 0 {
-				msg = &kmip.RequestMessage{Header: kmip.RequestHeader{ProtocolVersion: kmip.V1_4, BatchCount: 1}, BatchItem: []kmip.RequestBatchItem{{Operation: e.Op, RequestPayload: p}}}
+				msg = &kmip.RequestMessage{Header: kmip.RequestHeader{ProtocolVersion: kmip.V1_4, BatchCount: 1}, BatchItem: []kmip.RequestBatchItem{{Operation: e.Op, RequestPayload: p, MessageExtension: fpExt()}}}
 			} else {
-				msg = &kmip.ResponseMessage{Header: kmip.ResponseHeader{ProtocolVersion: kmip.V1_4, TimeStamp: sampleTime, BatchCount: 1}, BatchItem: []kmip.ResponseBatchItem{{Operation: e.Op, ResponsePayload: p}}}
+				msg = &kmip.ResponseMessage{Header: kmip.ResponseHeader{ProtocolVersion: kmip.V1_4, TimeStamp: sampleTime, BatchCount: 1}, BatchItem: []kmip.ResponseBatchItem{{Operation: e.Op, ResponsePayload: p, MessageExtension: fpExt()}}}
 				newPtr = func() any { return new(kmip.ResponseMessage) }
 			}
 			root, err := refwire.Parse(ttlv.MarshalTTLV(msg), true)
